@@ -172,6 +172,12 @@ func (p *parser) checkReferences(lookup objLookup, isRaw bool) error {
 			cmdList := m[name]
 			check := func(c *cmd) error {
 				for i, name := range c.ref {
+					if i >= len(c.typ.ref) {
+						// Reference found in command that doesn't support
+						// references, e.g. object-group in ACL of IOS.
+						return fmt.Errorf("'%s' references unsupported '%s'",
+							c.orig, name)
+					}
 					prefix := c.typ.ref[i]
 					if _, found := lookup[prefix][name]; !found {
 						if vl := defaultObjects[[2]string{prefix, name}]; vl != nil {
